@@ -45,6 +45,15 @@ Proof.
   unfold server. destruct (ctrl && fmtc); simpl; rewrite client_batches_app; simpl; split; auto; discriminate.
 Qed.
 
+(* With the status endpoint a late error is never lost, in any mode. *)
+Theorem late_error_reported ctrl fmtc stats bs late :
+  reported ctrl fmtc stats bs late = late.
+Proof.
+  unfold reported, status_endpoint, server.
+  destruct (ctrl && fmtc); simpl; rewrite client_batches_app;
+    destruct late; simpl; reflexivity.
+Qed.
+
 (* Endpoints: if the request and response codecs round-trip, the remote path is
    the local path. *)
 Section Endpoints.
